@@ -252,7 +252,9 @@ func extractRecords(repo, root string) error {
 	out.WriteString("-- GENERATED by /verif/go/extract (records) from /repo/{recordbatch.go,message_reader.go,protocol/record.go,\n")
 	out.WriteString("-- protocol/record_v2.go,protocol/buffer.go,compress/snappy/xerial.go} — do not edit\n")
 	out.WriteString("namespace KV.Gen.RecordConsts\n")
-	def := func(name string, v uint64, doc string) { fmt.Fprintf(&out, "/-- %s -/\ndef %s : Nat := %d\n", doc, name, v) }
+	def := func(name string, v uint64, doc string) {
+		fmt.Fprintf(&out, "/-- %s -/\ndef %s : Nat := %d\n", doc, name, v)
+	}
 
 	env, _, err := fileConsts(filepath.Join(repo, "recordbatch.go"))
 	if err != nil {
